@@ -420,6 +420,8 @@ theorem spec_endNode (n : Node) : Spec (endNode n) n.ids (fun _ => []) := by
 
 theorem safe_skip : Safe skip := fun n => Spec.pure (by ceqn)
 
+theorem safe_failOp (r : Ret) : Safe (failOp r) := fun n => Spec.pure (by ceqn)
+
 theorem safe_seq {a b : NodeOp} (ha : Safe a) (hb : Safe b) : Safe (a ⨟ b) := by
   intro n
   unfold seq
